@@ -952,7 +952,10 @@ def close_target(st):
     connection remembers from its open"""
     op = st.op
     c = op["c"]
-    return st.held_pre.get(c) or op["msg"].get("mailbox") or getattr(st, "flags_pre", {}).get(c, {}).get("mbid")
+    for v in (st.held_pre.get(c), op["msg"].get("mailbox"), getattr(st, "flags_pre", {}).get(c, {}).get("mbid")):
+        if v is not None:       # (the empty string is a mailbox id like any other)
+            return v
+    return None
 
 
 def _ephemeral_mailbox(st):
@@ -1126,7 +1129,7 @@ def check_C17(tr, welcome=None):
                 if _p.bad_client_version(m["client_version"]):
                     continue      # outside the property's domain of well-formed commands (DESIGN 6, C17)
             if clss == ["IntegrityError"] and st.pre is not None and m.get("type") in ("open", "close"):
-                mbid = m.get("mailbox") or (close_target(st) if m.get("type") == "close" else None)
+                mbid = m["mailbox"] if m.get("mailbox") is not None else (close_target(st) if m.get("type") == "close" else None)
                 b = st.bind_pre.get(c)
                 if b and any(r[1] == mbid and r[0] != b[0] for r in st.pre.mailboxes):
                     known = "K-global-mailbox-id"
